@@ -98,6 +98,42 @@ def rule_finalize(ctx, tu, flag):
                           "the allocation is followed by %s = false on every path" % flag,
                           "a path from this allocation reaches the exit without `%s = false`: finalize() "
                           "would leak the object / liveness tests would refuse a live object" % flag)
+    # the object deleted is the live one: each algorithm pointer is allocated by the initialiser that stores its type code, so a
+    # delete through it is reached only under that type code (or the pointer is reset to null right after, which makes a second
+    # delete harmless).  Deleting both pointers unconditionally frees the stale object of an earlier simulation a second time.
+    tcode = {}
+    for f in exports(tu):
+        codes = [cxa.const_int(s_.rhs) for s_ in cxa.all_stores(f.body) if s_.base and s_.base[:2] == ("var", "global_space_type") and s_.op == "="]
+        allocs = [s_.base[1] for s_ in cxa.all_stores(f.body) if s_.base and s_.base[0] == "var" and s_.base[1] in ptrs and
+                  s_.rhs is not None and strip(s_.rhs, casts=True).get("kind") == "CXXNewExpr"]
+        if len(set(codes)) == 1 and allocs:
+            for p_ in set(allocs):
+                tcode[p_] = codes[0]
+    for f in exports(tu):
+        if not any(n.get("kind") == "CXXDeleteExpr" for n in walk(f.body)):
+            continue
+        recs = []
+
+        def on_atom(node, facts, recs=recs):
+            for n in walk(node):
+                if n.get("kind") == "CXXDeleteExpr":
+                    recs.append((n, set(facts)))
+        cxa.canon_facts(f.body, on_atom=on_atom)
+        nulls = {s_.base[1] for s_ in cxa.all_stores(f.body) if s_.base and s_.base[0] == "var" and s_.base[1] in ptrs and
+                 s_.rhs is not None and (strip(s_.rhs, casts=True).get("kind") in ("CXXNullPtrLiteralExpr", "GNUNullExpr") or
+                                         cxa.const_int(s_.rhs) == 0)}
+        for n, facts in recs:
+            p_ = name_of(strip(kids(n)[0], casts=True)) if kids(n) else None
+            if p_ not in tcode:
+                continue
+            k_ = tcode[p_]
+            others = [c for c in set(tcode.values()) if c != k_]
+            sel = ("global_space_type == %d" % k_, True) in facts or (others and all(
+                ("global_space_type == %d" % c, False) in facts for c in others))
+            ctx.check(sel or p_ in nulls, R, n, f.qual, text(n) + " under the type code of " + p_,
+                      "the pointer selected by global_space_type (or reset to null after the delete)",
+                      "`%s` is deleted without the type code that says it is the live object, and is not reset to null: after a "
+                      "simulation on the other space type this frees the stale object of the earlier one again" % p_)
     # delete / new only in exports
     for f in tu.all_fns():
         if f.body is None or f in exports(tu):
@@ -523,6 +559,37 @@ def rule_reset(ctx, py):
     ctx.floor(R, 1)
 
 
+def rule_status(ctx, tu, py):
+    """C10.STATUS -- the loop exports answer 'unfinished?' and the Python side reads the answer by truthiness
+    (`bool(engineexport_run(..))`): every value they return is a bool or the literal 0 / 1.  Any other code (-1 for 'nothing set
+    up') is true for Python: a released or completed engine reports 'unfinished', `while engine.run(dt)` never ends."""
+    R = "C10.STATUS"
+    drivers = ("engineexport_run", "engineexport_iterate_n", "engineexport_iterate")
+    # how the caller reads the value
+    by_truth = set()
+    f_ = py.cls("librdengine.LibRDEngine")
+    for m in [n for n in f_.body if isinstance(n, ast.FunctionDef)]:
+        for c in pyfe.calls_in(m):
+            nm = pyfe.call_name(c)
+            for d in drivers:
+                if nm.endswith(d):
+                    by_truth.add(d)
+    ctx.need(by_truth, R, "no caller of the loop exports found in LibRDEngine")
+    n = 0
+    for d in drivers:
+        f = tu.fn(d)
+        for r in [x for x in walk(f.body) if x.get("kind") == "ReturnStmt" and kids(x)]:
+            v = strip(kids(r)[0], casts=True)
+            ty = v.get("type", {}).get("qualType", "")
+            lit = cxa.const_int(v)
+            okk = ty == "bool" or lit in (0, 1)
+            n += 1
+            ctx.check(okk, R, r, d, text(r)[:50], "a bool, 0 or 1", "`%s`: the Python side reads this export by truthiness, so the "
+                      "code %s means 'unfinished': after release or completion the engine never reports completion" %
+                      (text(r)[:30], lit if lit is not None else "returned"))
+    ctx.floor(R, 6)
+
+
 def rule_release(ctx, py):
     """C10.RELEASE -- who may release the native simulation: only an explicit finalize() call made by the user or by the
     simulate driver.  The library holds one simulation for the whole process (C10.ISOLATION), so a release triggered from
@@ -659,6 +726,7 @@ def run(ctx):
     rule_isolation(ctx, tu, eff)
     rule_reset(ctx, ctx.py)
     rule_release(ctx, ctx.py)
+    rule_status(ctx, tu, ctx.py)
     rule_progress(ctx, tu, eff)
     rule_type_ptr(ctx, tu)
     ctx.analysed["engine"] = tu.meta
